@@ -155,12 +155,13 @@ func (k *kubelet) exec(ctx context.Context, t *task) {
 			// the plugin fails the ADD and releases what it got; the runtime tears the sandbox down and will retry
 			// with a new sandbox
 			r.Probe("cni_add_failed")
-			if sb.alive {
+			wasAlive := sb.alive
+			if wasAlive {
 				w.killSandbox(sb, "ADD failed")
 				w.reassess()
 			}
 			k.del(ctx, sb)
-			if p := sb.pod; p.alive && p.cur == sb && n.alive && p.nSand < 4 {
+			if p := sb.pod; wasAlive && p.alive && !p.finished && p.cur == sb && n.alive && p.nSand < 4 {
 				nsb := w.newSandbox(p)
 				k.enqueue(&task{kind: tAdd, sb: nsb, notBefore: w.now() + time.Second})
 			}
